@@ -59,7 +59,16 @@ size_t merge_existing_groups(econf_file *dest_kf, struct file_entry **fe, econf_
       // Check if the group has changed in the last iteration
       if (i > 0 && (i == uf->length ||
 	  strcmp(uf->file_entry[i].group, uf->file_entry[i - 1].group))) {
-	for (size_t j = etc_start; j < ef->length; j++) {
+	// A group can be opened more than once in uf. The entries of ef are
+	// merged when its last run ends, so that new keys follow all of them.
+	bool last_run = true;
+	for (size_t l = i; l < uf->length; l++) {
+	  if (!strcmp(uf->file_entry[l].group, uf->file_entry[i - 1].group)) {
+	    last_run = false;
+	    break;
+	  }
+	}
+	for (size_t j = etc_start; last_run && j < ef->length; j++) {
 	  // Check for matching groups
 	  if (!strcmp(uf->file_entry[i - 1].group, ef->file_entry[j].group)) {
 	    // Only the first definition of a key in ef is visible to the
